@@ -69,7 +69,7 @@ def h_array(n: int, k: int, idx: int, op='append', numtype='int32', bo='little',
     assume(0 <= n <= BIG and 0 <= k <= BIG)
     small(_small, n, k, idx)
     w = new_world()
-    md = {'k': 1} if op in ('md-delete', 'copy') else None
+    md = {'k': 1} if op in ('md-delete', 'md-popitem', 'md-del', 'copy') else None
     put_array(D, w, '/w/a', n, numtype, bo, atom, metadata=md)
     fill_readmes_array(w, '/w/a')
     a = D.array.Array('/w/a', accessmode='r+')
@@ -86,6 +86,10 @@ def h_array(n: int, k: int, idx: int, op='append', numtype='int32', bo='little',
         a.metadata.update({'k': 2})
     elif op == 'md-delete':
         a.metadata.pop('k')
+    elif op == 'md-popitem':
+        a.metadata.popitem()
+    elif op == 'md-del':
+        del a.metadata['k']
     elif op == 'failed-append':
         try:
             a.iterappend([mk('same', k, atom, numtype, bo, 1),
@@ -187,7 +191,7 @@ def replay_readme(cex, d):
             if max(n, k) > 3000:
                 return {'reproduced': False, 'skip': True, 'detail': 'too large'}
             nt, bo, op = fx['numtype'], fx['bo'], fx['op']
-            md = {'k': 1} if op in ('md-delete', 'copy') else None
+            md = {'k': 1} if op in ('md-delete', 'md-popitem', 'md-del', 'copy') else None
             orig = rp.values(np_, n, atom, nt, bo)
             a = darr.asarray(tmp + '/a', orig, metadata=md, accessmode='r+') if n else darr.create_array(
                 tmp + '/a', shape=(0,) + atom, dtype=orig.dtype, metadata=md)
@@ -204,6 +208,10 @@ def replay_readme(cex, d):
                 a.metadata.update({'k': 2})
             elif op == 'md-delete':
                 a.metadata.pop('k')
+            elif op == 'md-popitem':
+                a.metadata.popitem()
+            elif op == 'md-del':
+                del a.metadata['k']
             elif op == 'failed-append':
                 try:
                     a.iterappend([rp.values(np_, k, atom, nt, bo), np_.zeros((1,) + atom + (2,), dtype=nt)])
@@ -253,7 +261,7 @@ def replay_readme(cex, d):
 def obligations(tier):
     thorough = tier == 'thorough'
     T = 900 if thorough else 280
-    aops = ['append', 'iterappend', 'truncate', 'md-create', 'md-update', 'md-delete', 'failed-append',
+    aops = ['append', 'iterappend', 'truncate', 'md-create', 'md-update', 'md-delete', 'md-popitem', 'md-del', 'failed-append',
             'recreate', 'copy', 'create']
     cfgs = [('int32', 'little', ()), ('float64', 'big', (2,))]
     if thorough:
